@@ -67,12 +67,28 @@ Proof.
       unfold nprovides. rewrite nth_error_app2 by lia. rewrite Nat.sub_diag. simpl. lia.
   - split; auto. exists ([Gen.mkfield st f] ++ ext). rewrite Ex. rewrite <- app_assoc. reflexivity.
 Qed.
+(* Any property of (pm, provs) that every successful field expansion preserves holds of the result of the second pass,
+   whatever the order in which the retrying loop ends up expanding the structs. *)
+Lemma pass2_loop_preserves (Q : Gen.pmap -> list Gen.prov -> Prop) :
+  (forall st fs pm provs pm' provs', Gen.add_fields pm provs st fs = OK (pm', provs') -> Q pm provs -> Q pm' provs') ->
+  forall fuel pm provs ss k pm' provs', Gen.pass2_loop fuel pm provs ss k = OK (pm', provs') -> Q pm provs -> Q pm' provs'.
+Proof.
+  intros Step. induction fuel as [|fuel IH]; intros pm provs ss k pm' provs' H G; simpl in H; [discriminate|].
+  destruct ss as [|s r]; [inversion H; subst; auto|].
+  destruct (hd_error (Gen.requires s)) as [st|]; [|discriminate]. destruct (Gen.assoc st pm).
+  - destruct (Gen.add_fields pm provs st (Gen.sfields s)) as [[pm1 provs1]|e] eqn:E; [|discriminate].
+    eapply IH; [exact H|]. eapply Step; eauto.
+  - destruct (Gen.has_field_of st r && Nat.leb k (length r)); [|discriminate]. eapply IH; eauto.
+Qed.
+Lemma pass2_preserves (Q : Gen.pmap -> list Gen.prov -> Prop) :
+  (forall st fs pm provs pm' provs', Gen.add_fields pm provs st fs = OK (pm', provs') -> Q pm provs -> Q pm' provs') ->
+  forall ss pm provs pm' provs', Gen.pass2 pm provs ss = OK (pm', provs') -> Q pm provs -> Q pm' provs'.
+Proof. intros Step ss pm provs pm' provs' H. unfold Gen.pass2 in H. eapply pass2_loop_preserves; eauto. Qed.
+
 Lemma pass2_good : forall ss pm provs pm' provs', Gen.pass2 pm provs ss = OK (pm', provs') -> pm_good pm provs -> pm_good pm' provs'.
 Proof.
-  induction ss as [|s r IH]; intros pm provs pm' provs' H G; simpl in H; [inversion H; subst; auto|].
-  destruct (hd_error (Gen.requires s)) as [st|]; [|discriminate]. destruct (Gen.assoc st pm); [|discriminate].
-  destruct (Gen.add_fields pm provs st (Gen.sfields s)) as [[pm1 provs1]|e] eqn:E; [|discriminate].
-  destruct (add_fields_good _ _ _ _ _ _ E G) as (G1 & _). eapply IH; eauto.
+  intros ss pm provs pm' provs' H G. apply (pass2_preserves pm_good) with (ss := ss) (pm := pm) (provs := provs); auto.
+  intros st fs pm0 provs0 pm1 provs1 E G0. destruct (add_fields_good _ _ _ _ _ _ E G0) as (G1 & _). exact G1.
 Qed.
 
 (* ---------------- the BFS only appends nodes ---------------- *)
